@@ -13,6 +13,8 @@ import (
 	"strconv"
 	"strings"
 	"time"
+
+	"verif/internal/pipe"
 )
 
 // Finding is one candidate violation produced by a check, before classification against
@@ -283,6 +285,7 @@ func (rc *RunCtx) Finish() {
 		fmt.Println("cannot write evidence:", err)
 		os.Exit(2)
 	}
+	pipe.CleanupCLICache()
 	fmt.Printf("%s tier=%s: %d finding(s), %d known, %d violation group(s); wall %.1fs\n", rc.ID, rc.Tier, len(rc.Findings), len(rc.Findings)-len(viol), len(order), time.Since(rc.Start).Seconds())
 	if len(order) > 0 {
 		os.Exit(1)
